@@ -88,7 +88,7 @@ func modeFor(prop string) (*histMode, error) {
 			},
 			roracle: hist.CheckPresence}, nil
 	case "C11":
-		return &histMode{flavors: []string{"counter", "object", "array"}, proto: true, smallSnap: true,
+		return &histMode{flavors: []string{"counter", "object", "array"}, proto: true, smallSnap: true, presence: true,
 			gen:     hist.GenConfig{MinClients: 2, MaxClients: 4, MinSteps: 8, MaxSteps: 30, Detach: true, Deactivate: true, Late: true},
 			oracle:  func(h *hist.History, o *hist.Outcome) []hist.Problem { return nil },
 			roracle: hist.CheckMinVVExact}, nil
@@ -145,8 +145,8 @@ func modeFor(prop string) (*histMode, error) {
 				return append(append(baseOracle(h, o), hist.CheckConvergence(o)...), hist.CheckCloneRoot(o)...)
 			}}, nil
 	case "C08":
-		return &histMode{optOutSome: true, probeLWW: true, flavors: append(append([]string{}, all...), "tree", "treex", "objnest"),
-			gen: hist.GenConfig{MinClients: 1, MaxClients: 3, MinSteps: 6, MaxSteps: 30, FailUpd: true, Undo: true, Presence: true},
+		return &histMode{optOutSome: true, probeLWW: true, smallSnap: true, flavors: append(append([]string{}, all...), "tree", "treex", "objnest"),
+			gen: hist.GenConfig{MinClients: 1, MaxClients: 3, MinSteps: 6, MaxSteps: 30, FailUpd: true, Undo: true, Presence: true, Late: true},
 			oracle: func(h *hist.History, o *hist.Outcome) []hist.Problem {
 				var ps []hist.Problem
 				for _, p := range o.Problems {
